@@ -656,7 +656,7 @@ pub fn run(tier: &str, seed: u64, replay: Option<String>) -> i32 {
         // two adjacent unrelated definitions swapped; an unreferenced definition renamed
         let n_more = if thorough { 12 } else { 2 };
         for _ in 0..n_more {
-            for mode in ["swap", "rename_unused", "near:lower", "near:upper", "near:blank2", "near:trail"] {
+            for mode in ["swap", "rename_unused", "near:lower", "near:upper", "near:blank2", "near:trail", "revalued_copy", "revalued_copy", "revalued_copy"] {
                 cases.push(Case {
                     mode: "fixed",
                     job: single_job(&json!({"op":"convert_edited","file":f.rel,"def":rng.below(100_000),"mode":mode})),
